@@ -254,7 +254,10 @@ def check_kernel(kid, src, active, ints):
         return ("<A x, y> - <x, A* y> is not identically zero: "
                 + str(diff)[:300] + "\n--- adjoint written by PSyAD ---\n"
                 + ad_src)
-    loopvars = {"i"}
+    from psyclone.psyir.nodes import Loop
+    # loop iterators are scratch variables, not passive data
+    loopvars = {lp.variable.name.lower() for lp in tl.walk(Loop)} | \
+        {lp.variable.name.lower() for lp in ad.walk(Loop)}
     for n, v in passive0.items():
         if n in loopvars:
             continue
@@ -264,10 +267,61 @@ def check_kernel(kid, src, active, ints):
     return None
 
 
-def family():
+def more_kernels():
+    ks = []
+    ks.append(("nest-2d", f'''subroutine kern(a, b, x, n)
+  integer, intent(in) :: n
+  real, intent(inout) :: a({EXTENT}), b({EXTENT})
+  real, intent(in) :: x
+  integer :: i, j
+  do j = 1, 3
+    do i = j, n, 2
+      a(i) = a(i) + x*b(i + 1)
+    end do
+  end do
+end subroutine kern
+''', ["a", "b"], {"n": 9}))
+    ks.append(("accumulate-scalar", f'''subroutine kern(a, s, x, n)
+  integer, intent(in) :: n
+  real, intent(inout) :: a({EXTENT}), s
+  real, intent(in) :: x
+  integer :: i
+  do i = 1, n
+    s = s + x*a(i)
+    a(i) = 3.0*a(i) - s
+  end do
+end subroutine kern
+''', ["a", "s"], {"n": 6}))
+    ks.append(("shifted-stencil", f'''subroutine kern(a, b, x, n)
+  integer, intent(in) :: n
+  real, intent(inout) :: a({EXTENT}), b({EXTENT})
+  real, intent(in) :: x
+  integer :: i
+  do i = 2, n - 1
+    a(i) = a(i) + x*b(i - 1) - b(i + 1)/x
+  end do
+  b(1) = b(1) - a(2)
+end subroutine kern
+''', ["a", "b"], {"n": 8}))
+    ks.append(("minus-self-array", f'''subroutine kern(a, b, x, n)
+  integer, intent(in) :: n
+  real, intent(inout) :: a({EXTENT}), b({EXTENT})
+  real, intent(in) :: x
+  integer :: i
+  do i = n, 1, -1
+    a(i) = x*b(i) - a(i)
+    b(i) = -b(i) + 2.0*a(i)
+  end do
+end subroutine kern
+''', ["a", "b"], {"n": 5}))
+    return ks
+
+
+def family(thorough=False):
     """[(id, ok, detail, source)]"""
     out = []
-    for kid, src, active, ints in kernels():
+    for kid, src, active, ints in kernels() + (more_kernels() if thorough
+                                               else []):
         try:
             bad = check_kernel(kid, src, active, ints)
         except Exception as err:       # noqa: PSyAD refused / unsupported
@@ -321,7 +375,14 @@ BOUND_SHAPES = {
 }
 
 
-def loop_bound_obligations(timeout_ms=20000):
+MORE_SHAPES = {
+    "lo": ["n + m", "3 - n", "m * 2 - n"],
+    "hi": ["n - m", "10"],
+    "st": ["4", "-5", "7"],
+}
+
+
+def loop_bound_obligations(timeout_ms=20000, thorough=False):
     """For every combination of bound shapes: run the real AdjointVisitor on
     'do i = lo, hi, st', translate the produced bounds to z3 and prove, for
     ALL integer values of the variables, that the reversed loop has the same
@@ -340,7 +401,11 @@ def loop_bound_obligations(timeout_ms=20000):
         t = tdiv(hi - lo + st, st)
         return z3.If(t > 0, t, 0)
     out = []
-    for lo, hi, st in itertools.product(*(BOUND_SHAPES[k] for k in
+    shapes = {k: list(v) for k, v in BOUND_SHAPES.items()}
+    if thorough:
+        for k in shapes:
+            shapes[k] += MORE_SHAPES[k]
+    for lo, hi, st in itertools.product(*(shapes[k] for k in
                                           ("lo", "hi", "st"))):
         name = f"loop_node[do i = {lo}, {hi}, {st}]#reversed-iterations"
         src = (f"subroutine kern(a, b, n, m, lo, hi)\n"
